@@ -1538,6 +1538,20 @@ func checkLoopsTerminate(c *Ctx, rule string, cone []*ssa.Function) {
 								shape = "consumes its slice"
 							}
 						}
+						// n /= k (k > 1) or n >>= k (k >= 1) on an unsigned value that an exit condition compares
+						if bo, ok := e.(*ssa.BinOp); ok && (bo.Op == token.QUO || bo.Op == token.SHR) && bo.X == ssa.Value(ph) && isUnsigned(ph.Type()) {
+							if k, isC := constInt(bo.Y); isC && ((bo.Op == token.QUO && k > 1) || (bo.Op == token.SHR && k >= 1)) {
+								for b := range body {
+									iff, ok := b.Instrs[len(b.Instrs)-1].(*ssa.If)
+									if !ok || (body[b.Succs[0]] && body[b.Succs[1]]) {
+										continue
+									}
+									if cmp, ok := iff.Cond.(*ssa.BinOp); ok && (cmp.X == ssa.Value(ph) || cmp.Y == ssa.Value(ph)) {
+										shape = "shrinks an unsigned value towards zero"
+									}
+								}
+							}
+						}
 					}
 				}
 			}
